@@ -24,7 +24,7 @@ from translate import neb as neb_tr
 
 PROP = "C09"
 LEAN_MODULE = "TopSearch.Props.C09"
-LEAN_FILES = ["TopSearch.Props.C09", "TopSearch.Model.Neb"]
+LEAN_FILES = ["TopSearch.Props.C09", "TopSearch.Lemmas.Neb", "TopSearch.Model.Neb"]
 EXTRA_TARGETS = ["TopSearch.Model.Neb", "TopSearch.Gen.Neb", "TopSearch.Drv.Util"]
 _T = "TopSearch.Props.C09."
 REQUIRED = [_T + n for n in [
@@ -37,7 +37,7 @@ REQUIRED = [_T + n for n in [
     "C09_tangent_upwind", "C09_tangent_unit_or_zero",
     "C09_no_residue_density", "C09_no_residue_outputs", "C09_no_residue_history",
     "C09_spring_restoring_partial", "C09_spring_restoring_of_repaired_sign",
-    "C09_spring_not_restoring_as_coded",
+    "C09_spring_sign_as_coded", "C09_spring_not_restoring_as_coded",
 ]]
 RULE = ("cases = one call of the real method compared with the Rat model on the same input "
         "(initial_interpolation on an object with history, find_tangent_differences, "
@@ -653,7 +653,12 @@ def corr_runs(ctx, rng, b):
         b.add([new], lambda ans: None)
         hist = [new]
         for (x1, x2, attempts) in cfg["calls"]:
-            cap = traced_run(neb, pot, box, x1, x2, attempts)
+            try:
+                cap = traced_run(neb, pot, box, x1, x2, attempts)
+            except Exception as ex:
+                ctx.diverge("run:raises", f"run raised {exc_name(ex)}: {str(ex)[:120]} (the model accepts the call)",
+                            {"ops": hist + [f"interp {attempts} {V(x1)} {V(x2)} {BOX(box)}"]})
+                break
             ctx.stats.traces += 1
             # the same call on a fresh object: bit-for-bit equal outputs (the model is a function
             # of configuration and arguments only)
@@ -897,6 +902,17 @@ def _report(ctx, fails, replay):
         ctx.fail(key, what, replay)
 
 
+def _run_pred(ctx, fn, args, site, replay):
+    """evaluate one predicate; an exception of the real code on an input of the property's domain
+    is a failure with that input as its replay"""
+    try:
+        fails = fn(*args)
+    except Exception as ex:
+        fails = [(f"raises-{exc_name(ex)}:{site}", f"{site} raised {exc_name(ex)}: {str(ex)[:160]}")]
+    _report(ctx, fails, replay)
+    return fails
+
+
 def predicates(ctx: Ctx) -> None:
     rng = ctx.rng
     np.random.seed(ctx.seed + 1)
@@ -910,36 +926,36 @@ def predicates(ctx: Ctx) -> None:
     ]
     for case in corpus_g:
         ctx.stats.case({"stream": "predicate-corpus", "n": case[0]}, True)
-        _report(ctx, pred_gradient(*case), {"pred": "gradient", "case": list(case)})
+        _run_pred(ctx, pred_gradient, case, "band_function_gradient", {"pred": "gradient", "case": list(case)})
     corpus_c = [(5, [[0.0], [1.0], [2.0], [3.0], [4.0]], [0.0, 1.0, 1.0, 0.0, 0.0]),
                 (3, [[0.0], [1.0], [2.0]], [1.0, 1.0, 1.0]),
                 (4, [[0.0], [1.0], [2.0], [3.0]], [0.0, 1.0, 2.0, 3.0])]
     for case in corpus_c:
         ctx.stats.case({"stream": "predicate-corpus", "cands": case[0]}, True)
-        _report(ctx, pred_candidates(*case), {"pred": "candidates", "case": list(case)})
+        _run_pred(ctx, pred_candidates, case, "find_ts_candidates", {"pred": "candidates", "case": list(case)})
     corpus_i = [(1.0, 1.0, 10, [(-1.0, 9.0)], [([0.0], [8.0], 0), ([0.0], [8.0], 2), ([0.0], [8.0], 0)]),
                 (1.0, 10.0, 50, [(-3.0, 3.0), (-2.0, 2.0)], [([-3.0, -2.0], [3.0, 2.0], 3), ([0.5, 0.5], [0.5, 0.5], 0)])]
     for case in corpus_i:
         ctx.stats.case({"stream": "predicate-corpus", "interp": case[2]}, True)
-        _report(ctx, pred_interp(*case), {"pred": "interp", "case": list(case)})
+        _run_pred(ctx, pred_interp, case, "initial_interpolation", {"pred": "interp", "case": list(case)})
     corpus_r = [{"surface": "camel", "k": 10.0, "density": 10.0, "max": 15,
                  "calls": [([-1.7036, 0.79608], [1.7036, -0.79608], 0), ([-1.7036, 0.79608], [0.0898, -0.7126], 2),
                            ([-1.7036, 0.79608], [1.7036, -0.79608], 0)]}]
     for cfg in corpus_r:
         ctx.stats.case({"stream": "predicate-corpus", "run": cfg["surface"]}, True)
-        _report(ctx, pred_runs(cfg), {"pred": "runs", "case": cfg})
+        _run_pred(ctx, pred_runs, (cfg,), "run", {"pred": "runs", "case": cfg})
     # seeded
     for _ in range(ctx.scale(150, 1000) * deep):
         case = gradient_case(rng, uniform_k=True)
         ctx.stats.case({"stream": "predicate-gradient", "n": case[0]}, True)
-        _report(ctx, pred_gradient(*case), {"pred": "gradient", "case": list(case)})
+        _run_pred(ctx, pred_gradient, case, "band_function_gradient", {"pred": "gradient", "case": list(case)})
     for _ in range(ctx.scale(150, 1000) * deep):
         m = rng.randrange(3, 10)
         band = gen_band(rng, m, rng.choice([1, 2, 3]), "free")
         e = gen_energies(rng, m, rng.choice(ENERGY_KINDS))
         consistent(band, e, [[0.0]] * m)
         ctx.stats.case({"stream": "predicate-candidates", "n": m}, True)
-        _report(ctx, pred_candidates(m, band, e), {"pred": "candidates", "case": [m, band, e]})
+        _run_pred(ctx, pred_candidates, (m, band, e), "find_ts_candidates", {"pred": "candidates", "case": [m, band, e]})
     for _ in range(ctx.scale(60, 400) * deep):
         d = rng.choice([1, 2, 3, 4])
         box = gen_box(rng, d)
@@ -953,30 +969,36 @@ def predicates(ctx: Ctx) -> None:
         case = (rng.choice([1.0, 50.0]), rng.choice([0.5, 1.0, 3.0, 7.3, 10.0, 40.0]),
                 rng.choice([10, 11, 15, 20, 50]), box, calls)
         ctx.stats.case({"stream": "predicate-interp", "d": d}, True)
-        _report(ctx, pred_interp(*case), {"pred": "interp", "case": list(case)})
+        _run_pred(ctx, pred_interp, case, "initial_interpolation", {"pred": "interp", "case": list(case)})
     for _ in range(ctx.scale(6, 40) * deep):
         cfg = gen_run_sequence(rng, rng.randrange(2, 5))
         ctx.stats.case({"stream": "predicate-runs", "surface": cfg["surface"]}, True)
         ctx.contract("LBFGSB", True)
-        fails = pred_runs(cfg)
+        fails = _run_pred(ctx, pred_runs, (cfg,), "run", {"pred": "runs", "case": cfg})
         if any(k.startswith(("ends-moved", "optimised-in-box")) for k, _ in fails):
             ctx.contracts["LBFGSB"]["failed"] += 1
-        _report(ctx, fails, {"pred": "runs", "case": cfg})
 
 
 def replay(ctx: Ctx, data: dict) -> bool:
     kind = data.get("pred")
     case = data.get("case")
+    def guarded(fn, args, site):
+        try:
+            return fn(*args)
+        except Exception as ex:
+            return [(f"raises-{exc_name(ex)}:{site}", f"{site} raised {exc_name(ex)}: {str(ex)[:160]}")]
+
     if kind == "gradient":
-        fails = pred_gradient(*case)
+        fails = guarded(pred_gradient, case, "band_function_gradient")
     elif kind == "candidates":
-        fails = pred_candidates(*case)
+        fails = guarded(pred_candidates, case, "find_ts_candidates")
     elif kind == "interp":
         k, density, mx, box, calls = case
-        fails = pred_interp(k, density, mx, [tuple(b) for b in box], [tuple(c) for c in calls])
+        fails = guarded(pred_interp, (k, density, mx, [tuple(b) for b in box], [tuple(c) for c in calls]),
+                        "initial_interpolation")
     elif kind == "runs":
         case["calls"] = [tuple(c) for c in case["calls"]]
-        fails = pred_runs(case)
+        fails = guarded(pred_runs, (case,), "run")
     else:
         print("  replay of a model/implementation divergence or broken obligation: re-run ./check C09")
         return False
